@@ -33,10 +33,11 @@ func randomConfig(g *vc.Rng, profile string, i int) config {
 		c.handler = g.Intn(5) == 0
 		c.fresh = i%4 == 3
 	default:
+		// profile c10 keeps away from what C11 / C16 are about (rotations, fresh sessions, a Warnings channel
+		// that can fill up): its subject is the numbering over reconnects and one ack per delivery
 		if g.Intn(4) == 0 {
-			c.warnCap = 8
+			c.warnCap = 64
 		}
-		c.fresh = i%12 == 5
 	}
 	return c
 }
@@ -52,7 +53,7 @@ func profileWeights(p string) weights {
 	case "c16":
 		return weights{rotate: 1, hostile: 3, close: 1, service: 2, dup: 1, drain: 1}
 	default:
-		return weights{rotate: 1, hostile: 0, close: 2, service: 3, dup: 3, drain: 0}
+		return weights{rotate: 0, hostile: 0, close: 2, service: 3, dup: 3, drain: 0}
 	}
 }
 
@@ -75,8 +76,10 @@ func (r *run) playRandom(g *vc.Rng, profile string) {
 		if g.Intn(8) == 0 {
 			rotations = 0
 		}
-	default:
+	case "c16":
 		rotations = g.Intn(2)
+	default:
+		rotations = 0
 	}
 	closes := 0
 	if w.close > 0 {
@@ -144,7 +147,8 @@ func (r *run) playRandom(g *vc.Rng, profile string) {
 					writtenT = append(writtenT, t)
 				}
 			}
-			if c.active != nil && c.active.frame >= 0 && c.active.answers == 0 && len(c.active.ids) > 0 && c.active.ids[len(c.active.ids)-1] == c.active.msgID {
+			if c.active != nil && c.active.frame >= 0 && c.active.answers == 0 && len(c.active.ids) > 0 &&
+				c.active.ids[len(c.active.ids)-1] == c.active.msgID && !r.wasRejected(c.active.msgID) {
 				open = append(open, c.active)
 				openT = append(openT, t)
 			}
